@@ -84,7 +84,10 @@ func (peerStubOIDC) Verify(_ context.Context, raw string) (*oidc.IDToken, error)
 
 type peerState struct {
 	svr        *server.Service
-	method     string
+	method     string // t | o (stub verifier) | O (real go-oidc verifier on the fake provider) | S (token + ssh gateway)
+	token      string // cfg.Auth.Token (key of the control connection's crypto stream)
+	hb, wc     bool   // additional scopes of the server
+	gw         *peerGateway
 	port       int
 	kcpPort    int
 	quicPort   int
@@ -133,11 +136,20 @@ func (st *peerState) stop() {
 	if st.svr != nil {
 		st.svr.Close()
 	}
+	if st.gw != nil {
+		st.gw.cleanup()
+	}
 	*st = peerState{}
 }
 
-func (st *peerState) start(method string, hb, wc bool) {
+// extra carries the mode-specific configuration: O: <aud> <skipExp> <skipIss>; S: <ak>
+func (st *peerState) start(method string, hb, wc bool, extra ...string) {
 	st.stop()
+	peerQuiet()
+	var gw *peerGateway
+	if method == "S" {
+		gw = newPeerGateway(len(extra) > 0 && peerB(extra[0]))
+	}
 	var lastErr error
 	for attempt := 0; attempt < 5; attempt++ {
 		cfg := &v1.ServerConfig{}
@@ -145,8 +157,22 @@ func (st *peerState) start(method string, hb, wc bool) {
 		cfg.BindPort, cfg.KCPBindPort, cfg.QUICBindPort = peerFreePorts()
 		cfg.Auth.Method = v1.AuthMethodToken
 		cfg.Auth.Token = peerToken
-		if method == "o" {
+		if method == "o" || method == "O" {
 			cfg.Auth.Token = ""
+		}
+		if method == "O" {
+			cfg.Auth.Method = v1.AuthMethodOIDC
+			cfg.Auth.OIDC = v1.AuthOIDCServerConfig{
+				Issuer:          peerIdP().issuer,
+				Audience:        unhx(extra[0]),
+				SkipExpiryCheck: peerB(extra[1]),
+				SkipIssuerCheck: peerB(extra[2]),
+			}
+		}
+		if gw != nil {
+			cfg.SSHTunnelGateway.BindPort = peerFreeTCPPort()
+			cfg.SSHTunnelGateway.PrivateKeyFile = gw.hostKeyFile
+			cfg.SSHTunnelGateway.AuthorizedKeysFile = gw.akFile // "" = not configured
 		}
 		if hb {
 			cfg.Auth.AdditionalScopes = append(cfg.Auth.AdditionalScopes, v1.AuthScopeHeartBeats)
@@ -167,6 +193,12 @@ func (st *peerState) start(method string, hb, wc bool) {
 		go svr.Run(context.Background())
 		st.svr, st.port, st.kcpPort, st.quicPort = svr, cfg.BindPort, cfg.KCPBindPort, cfg.QUICBindPort
 		st.method = method
+		st.token = cfg.Auth.Token
+		st.hb, st.wc = hb, wc
+		if gw != nil {
+			gw.port = cfg.SSHTunnelGateway.BindPort
+			st.gw = gw
+		}
 		st.connectors = map[string]client.Connector{}
 		st.conns = map[string]*peerConn{}
 		st.ridOf = map[string]string{}
@@ -174,6 +206,9 @@ func (st *peerState) start(method string, hb, wc bool) {
 		st.lastPing = map[string]int64{}
 		st.lp = map[string]int{}
 		return
+	}
+	if gw != nil {
+		gw.cleanup()
 	}
 	panic(fmt.Sprint("cannot start frps: ", lastErr))
 }
@@ -298,130 +333,177 @@ func (st *peerState) ridref(t string) string {
 	return unhx(t)
 }
 
+// first message Login on a fresh connection over transport tr
+func (st *peerState) doLogin(cid, tr, rid string, ts int64, key string, aap bool, pool int) string {
+	c, err := st.open(tr)
+	if err != nil {
+		return "dialerr"
+	}
+	st.sessions()
+	lm := &msg.Login{
+		Version: version.Full(), Hostname: "peer", Os: "linux", Arch: "amd64",
+		RunID: rid, Timestamp: ts, PrivilegeKey: key, PoolCount: pool,
+		ClientSpec: msg.ClientSpec{AlwaysAuthPass: aap},
+	}
+	if err := msg.WriteMsg(c, lm); err != nil {
+		c.Close()
+		return "writeerr"
+	}
+	m, err := peerRead(c, c)
+	if err != nil {
+		c.Close()
+		if peerIsTimeout(err) {
+			return "timeout"
+		}
+		return "eof"
+	}
+	resp, ok := m.(*msg.LoginResp)
+	if !ok {
+		c.Close()
+		return "unexpected"
+	}
+	if resp.Error != "" {
+		r := "err:" + peerExpectClosed(c)
+		c.Close()
+		return r
+	}
+	pc := &peerConn{c: c, rw: c, runID: resp.RunID, established: true}
+	if tr != "int" {
+		rw, err := netpkg.NewCryptoReadWriter(c, []byte(st.token))
+		if err != nil {
+			return "cryptoerr"
+		}
+		pc.rw = rw
+	}
+	st.conns[cid] = pc
+	st.ridOf[cid] = resp.RunID
+	st.owner[resp.RunID] = cid
+	// a (new or replacing) session starts with a fresh lastPing
+	if s, ok := st.session(resp.RunID); ok {
+		st.lastPing[resp.RunID] = s.LastPing
+		st.lp[resp.RunID] = 0
+	}
+	return "ok:" + hx(resp.RunID)
+}
+
+// first message NewWorkConn on a fresh connection over transport tr
+func (st *peerState) doWork(cid, tr, rid string, ts int64, key string) string {
+	before, known := st.session(rid)
+	c, err := st.open(tr)
+	if err != nil {
+		return "dialerr"
+	}
+	if err := msg.WriteMsg(c, &msg.NewWorkConn{RunID: rid, Timestamp: ts, PrivilegeKey: key}); err != nil {
+		c.Close()
+		return "writeerr"
+	}
+	type rd struct {
+		m   msg.Message
+		err error
+	}
+	ch := make(chan rd, 1)
+	go func() {
+		m, err := peerRead(c, c)
+		ch <- rd{m, err}
+	}()
+	deadline := time.Now().Add(peerTimeout)
+	for {
+		select {
+		case r := <-ch:
+			if r.err != nil {
+				c.Close()
+				if peerIsTimeout(r.err) {
+					return "timeout"
+				}
+				return "closed"
+			}
+			sw, ok := r.m.(*msg.StartWorkConn)
+			if !ok || sw.Error == "" {
+				c.Close()
+				return "unexpected"
+			}
+			res := "refused:" + peerExpectClosed(c)
+			c.Close()
+			return res
+		default:
+		}
+		if known {
+			if now, ok := st.session(rid); ok && now.Pool > before.Pool {
+				_ = c.SetReadDeadline(time.Now()) // stop the reader; the connection stays pooled and open
+				st.conns[cid] = &peerConn{c: c, rw: c}
+				if before.AlwaysPass {
+					return "pooled:ap"
+				}
+				return "pooled"
+			}
+		}
+		if time.Now().After(deadline) {
+			c.Close()
+			peerTimedOut()
+			return "timeout"
+		}
+		time.Sleep(100 * time.Microsecond)
+	}
+}
+
+// Ping on the established control connection cid
+func (st *peerState) doPing(cid string, ts int64, key string) string {
+	pc := st.conns[cid]
+	if pc == nil || !pc.established {
+		return "gone"
+	}
+	st.sessions()
+	lpBefore, had := st.lp[pc.runID]
+	if st.owner[pc.runID] != cid {
+		had = false
+	}
+	if err := msg.WriteMsg(pc.rw, &msg.Ping{PrivilegeKey: key, Timestamp: ts}); err != nil {
+		pc.established = false
+		return "gone"
+	}
+	for {
+		m, err := peerRead(pc.rw, pc.c)
+		if err != nil {
+			pc.established = false
+			if peerIsTimeout(err) {
+				return "timeout"
+			}
+			return "gone"
+		}
+		pong, ok := m.(*msg.Pong)
+		if !ok {
+			continue // ReqWorkConn etc.
+		}
+		st.sessions()
+		moved := "same"
+		if had && st.lp[pc.runID] != lpBefore {
+			moved = "moved"
+		}
+		if pong.Error != "" {
+			return "pong:err:" + moved
+		}
+		return "pong:ok:" + moved
+	}
+}
+
 func peerExec(tok []string) string {
 	st := peerSt
 	if tok[0] == "reset" {
-		st.start(tok[1], peerB(tok[2]), peerB(tok[3]))
+		st.start(tok[1], peerB(tok[2]), peerB(tok[3]), tok[4:]...)
 		return "-"
 	}
 	if st.svr == nil {
 		st.start("t", false, false)
 	}
+	if r, ok := peerAuthExec(st, tok); ok {
+		return r
+	}
 	switch tok[0] {
 	case "login":
-		cid, tr, rid, ts, key, aap, pool := tok[1], tok[2], unhx(tok[3]), int64(atoi(tok[4])), unhx(tok[5]), peerB(tok[7]), atoi(tok[8])
-		c, err := st.open(tr)
-		if err != nil {
-			return "dialerr"
-		}
-		st.sessions()
-		lm := &msg.Login{
-			Version: version.Full(), Hostname: "peer", Os: "linux", Arch: "amd64",
-			RunID: rid, Timestamp: ts, PrivilegeKey: key, PoolCount: pool,
-			ClientSpec: msg.ClientSpec{AlwaysAuthPass: aap},
-		}
-		if err := msg.WriteMsg(c, lm); err != nil {
-			c.Close()
-			return "writeerr"
-		}
-		m, err := peerRead(c, c)
-		if err != nil {
-			c.Close()
-			if peerIsTimeout(err) {
-				return "timeout"
-			}
-			return "eof"
-		}
-		resp, ok := m.(*msg.LoginResp)
-		if !ok {
-			c.Close()
-			return "unexpected"
-		}
-		if resp.Error != "" {
-			r := "err:" + peerExpectClosed(c)
-			c.Close()
-			return r
-		}
-		pc := &peerConn{c: c, rw: c, runID: resp.RunID, established: true}
-		if tr != "int" {
-			tokenKey := peerToken
-			if st.method == "o" {
-				tokenKey = ""
-			}
-			rw, err := netpkg.NewCryptoReadWriter(c, []byte(tokenKey))
-			if err != nil {
-				return "cryptoerr"
-			}
-			pc.rw = rw
-		}
-		st.conns[cid] = pc
-		st.ridOf[cid] = resp.RunID
-		st.owner[resp.RunID] = cid
-		// a (new or replacing) session starts with a fresh lastPing
-		if s, ok := st.session(resp.RunID); ok {
-			st.lastPing[resp.RunID] = s.LastPing
-			st.lp[resp.RunID] = 0
-		}
-		return "ok:" + hx(resp.RunID)
+		return st.doLogin(tok[1], tok[2], unhx(tok[3]), int64(atoi(tok[4])), unhx(tok[5]), peerB(tok[7]), atoi(tok[8]))
 
 	case "work":
-		cid, tr, rid, ts, key := tok[1], tok[2], st.ridref(tok[3]), int64(atoi(tok[4])), unhx(tok[5])
-		before, known := st.session(rid)
-		c, err := st.open(tr)
-		if err != nil {
-			return "dialerr"
-		}
-		if err := msg.WriteMsg(c, &msg.NewWorkConn{RunID: rid, Timestamp: ts, PrivilegeKey: key}); err != nil {
-			c.Close()
-			return "writeerr"
-		}
-		type rd struct {
-			m   msg.Message
-			err error
-		}
-		ch := make(chan rd, 1)
-		go func() {
-			m, err := peerRead(c, c)
-			ch <- rd{m, err}
-		}()
-		deadline := time.Now().Add(peerTimeout)
-		for {
-			select {
-			case r := <-ch:
-				if r.err != nil {
-					c.Close()
-					if peerIsTimeout(r.err) {
-						return "timeout"
-					}
-					return "closed"
-				}
-				sw, ok := r.m.(*msg.StartWorkConn)
-				if !ok || sw.Error == "" {
-					c.Close()
-					return "unexpected"
-				}
-				res := "refused:" + peerExpectClosed(c)
-				c.Close()
-				return res
-			default:
-			}
-			if known {
-				if now, ok := st.session(rid); ok && now.Pool > before.Pool {
-					_ = c.SetReadDeadline(time.Now()) // stop the reader; the connection stays pooled and open
-					st.conns[cid] = &peerConn{c: c, rw: c}
-					if before.AlwaysPass {
-						return "pooled:ap"
-					}
-					return "pooled"
-				}
-			}
-			if time.Now().After(deadline) {
-				c.Close()
-				peerTimedOut()
-				return "timeout"
-			}
-			time.Sleep(100 * time.Microsecond)
-		}
+		return st.doWork(tok[1], tok[2], st.ridref(tok[3]), int64(atoi(tok[4])), unhx(tok[5]))
 
 	case "visit":
 		tr, rid, name := tok[2], st.ridref(tok[3]), unhx(tok[4])
@@ -529,43 +611,7 @@ func peerExec(tok []string) string {
 		return peerExpectClosed(c)
 
 	case "ping":
-		cid, ts, key := tok[1], int64(atoi(tok[2])), unhx(tok[3])
-		pc := st.conns[cid]
-		if pc == nil || !pc.established {
-			return "gone"
-		}
-		st.sessions()
-		lpBefore, had := st.lp[pc.runID]
-		if st.owner[pc.runID] != cid {
-			had = false
-		}
-		if err := msg.WriteMsg(pc.rw, &msg.Ping{PrivilegeKey: key, Timestamp: ts}); err != nil {
-			pc.established = false
-			return "gone"
-		}
-		for {
-			m, err := peerRead(pc.rw, pc.c)
-			if err != nil {
-				pc.established = false
-				if peerIsTimeout(err) {
-					return "timeout"
-				}
-				return "gone"
-			}
-			pong, ok := m.(*msg.Pong)
-			if !ok {
-				continue // ReqWorkConn etc.
-			}
-			st.sessions()
-			moved := "same"
-			if had && st.lp[pc.runID] != lpBefore {
-				moved = "moved"
-			}
-			if pong.Error != "" {
-				return "pong:err:" + moved
-			}
-			return "pong:ok:" + moved
-		}
+		return st.doPing(tok[1], int64(atoi(tok[2])), unhx(tok[3]))
 
 	case "nproxy":
 		cid, name := tok[1], unhx(tok[2])
@@ -656,6 +702,13 @@ type peerGen struct {
 	logins []string // cids of login attempts expected to succeed
 	named  []string
 	subj   []string
+	// O episodes: the server's OIDC options; S episodes: authorized_keys state and live tunnels
+	oaud             string
+	oskipExp, oskipI bool
+	ohb, owc         bool
+	akSet            bool
+	akMode           string
+	tunnels          []string
 }
 
 func (g *peerGen) cid() string { g.next++; return "c" + strconv.Itoa(g.next) }
@@ -693,11 +746,15 @@ func (g *peerGen) ts() int64 {
 // returns (key, exp) for the chosen timestamp
 func (g *peerGen) key(ts int64, good bool) (string, string) {
 	exp := peerKey(peerToken, ts)
+	if g.method == "O" {
+		// raw strings sent to the real verifier: none of them is a JWT
+		return pick(g.rng, []string{"", "x", "s:alice", "a.b.c", "e30.e30.", exp}), exp
+	}
 	if g.method == "o" {
 		if good {
-			return "s:" + pick(g.rng, []string{"alice", "bob", "carol"}), ""
+			return "s:" + pick(g.rng, []string{"alice", "bob", "carol"}), exp
 		}
-		return pick(g.rng, []string{"", "x", "s:", "S:alice", "alice", exp}), ""
+		return pick(g.rng, []string{"", "x", "s:", "S:alice", "alice", exp}), exp
 	}
 	if good {
 		return exp, exp
@@ -754,6 +811,9 @@ func (g *peerGen) login(good bool, tr string) {
 func (g *peerGen) ridref() string {
 	r := g.rng.Intn(100)
 	switch {
+	case r < 45 && len(g.tunnels) > 0:
+		// a session the ssh gateway's virtual client created
+		return "@" + g.tunnels[len(g.tunnels)-1-g.rng.Intn(min(len(g.tunnels), 4))]
 	case r < 70 && len(g.logins) > 0:
 		return "@" + g.logins[len(g.logins)-1-g.rng.Intn(min(len(g.logins), 4))]
 	case r < 82:
@@ -801,64 +861,80 @@ func (g *peerGen) someLogin() string {
 
 func peerGenRun(rng *rand.Rand, n int, emit func(string)) {
 	g := &peerGen{rng: rng, emit: emit}
-	cfgNo := rng.Intn(8)
+	cfgNo := rng.Intn(12)
 	for g.n < n {
-		// one episode per configuration: every (method, scope subset) in turn
-		g.method = "t"
-		if cfgNo%8 >= 4 && cfgNo%2 == 1 { // 2 of 8 episodes use the stub OIDC verifier
-			g.method = "o"
-		}
-		hb, wc := (cfgNo>>0)&1, (cfgNo>>1)&1
-		if g.method == "o" {
-			hb, wc = (cfgNo>>1)&1, 1
-		}
+		// one episode per configuration: every (method, scope subset) in turn; 2 of 12 episodes run the real
+		// OIDC verifier against the in-process provider, 2 of 12 the ssh tunnel gateway
+		k := cfgNo % 12
 		cfgNo++
 		g.logins, g.named = nil, nil
+		switch {
+		case k == 8 || k == 9:
+			g.oidcEpisode(n, k == 9)
+			continue
+		case k >= 10:
+			g.sshEpisode(n, k == 10)
+			continue
+		}
+		g.method = "t"
+		if k >= 4 && k%2 == 1 { // 2 of 12 episodes use the stub OIDC verifier
+			g.method = "o"
+		}
+		hb, wc := (k>>0)&1, (k>>1)&1
+		if g.method == "o" {
+			hb, wc = (k>>1)&1, 1
+		}
 		g.op(fmt.Sprintf("reset %s %d %d", g.method, hb, wc))
 		g.login(true, "tcp")
 		g.dump()
 		for k := 0; k < 45 && g.n < n; k++ {
-			r := rng.Intn(100)
-			switch {
-			case r < 16:
-				g.login(true, g.tr())
-			case r < 30:
-				g.login(false, g.tr())
-			case r < 46:
-				ts := g.ts()
-				key, exp := g.key(ts, rng.Intn(5) < 2)
-				g.op(fmt.Sprintf("ping %s %d %s %s", g.someLogin(), ts, hx(key), hx(exp)))
-			case r < 68:
-				g.work(rng.Intn(2) == 0, g.tr(), g.ridref())
-			case r < 74:
-				g.op(fmt.Sprintf("first %s %s %s", g.cid(), g.tr(), pick(rng, peerFirstKinds)))
-			case r < 78:
-				g.op(fmt.Sprintf("visit %s %s %s %s", g.cid(), g.tr(), g.ridref(), hx(pick(rng, []string{"p1", "p2", "ghost"}))))
-			case r < 85:
-				g.op(fmt.Sprintf("nproxy %s %s", g.someLogin(), hx(pick(rng, []string{"p1", "p2", "p3", "p4"}))))
-			case r < 88:
-				g.op("drop " + g.someLogin())
-			case r < 89:
-				g.op("raw " + pick(rng, []string{
-					hex.EncodeToString([]byte("HELLO WORLD, THIS IS NOT YAMUX")),
-					"ffffffffffffffffffffffffffffffff",
-					"00090000000000010000000000000000"}))
-			case r < 95:
-				// a burst of refused attempts of every kind, then the tables must be what they were
-				g.dump()
-				for j := 3 + rng.Intn(10); j > 0; j-- {
-					g.refusedAttempt()
-				}
-			default:
-				// fill one session's pool to the brim and beyond
-				if len(g.logins) > 0 {
-					ref := "@" + g.logins[len(g.logins)-1]
-					for j := 0; j < 12+rng.Intn(6); j++ {
-						g.work(true, "tcp", ref)
-					}
-				}
-			}
+			g.classicStep()
 			g.dump()
+		}
+	}
+}
+
+// one step of a token / stub-OIDC episode
+func (g *peerGen) classicStep() {
+	rng := g.rng
+	r := rng.Intn(100)
+	switch {
+	case r < 16:
+		g.login(true, g.tr())
+	case r < 30:
+		g.login(false, g.tr())
+	case r < 46:
+		ts := g.ts()
+		key, exp := g.key(ts, rng.Intn(5) < 2)
+		g.op(fmt.Sprintf("ping %s %d %s %s", g.someLogin(), ts, hx(key), hx(exp)))
+	case r < 68:
+		g.work(rng.Intn(2) == 0, g.tr(), g.ridref())
+	case r < 74:
+		g.op(fmt.Sprintf("first %s %s %s", g.cid(), g.tr(), pick(rng, peerFirstKinds)))
+	case r < 78:
+		g.op(fmt.Sprintf("visit %s %s %s %s", g.cid(), g.tr(), g.ridref(), hx(pick(rng, []string{"p1", "p2", "ghost"}))))
+	case r < 85:
+		g.op(fmt.Sprintf("nproxy %s %s", g.someLogin(), hx(pick(rng, []string{"p1", "p2", "p3", "p4"}))))
+	case r < 88:
+		g.op("drop " + g.someLogin())
+	case r < 89:
+		g.op("raw " + pick(rng, []string{
+			hex.EncodeToString([]byte("HELLO WORLD, THIS IS NOT YAMUX")),
+			"ffffffffffffffffffffffffffffffff",
+			"00090000000000010000000000000000"}))
+	case r < 95:
+		// a burst of refused attempts of every kind, then the tables must be what they were
+		g.dump()
+		for j := 3 + rng.Intn(10); j > 0; j-- {
+			g.refusedAttempt()
+		}
+	default:
+		// fill one session's pool to the brim and beyond
+		if len(g.logins) > 0 {
+			ref := "@" + g.logins[len(g.logins)-1]
+			for j := 0; j < 12+rng.Intn(6); j++ {
+				g.work(true, "tcp", ref)
+			}
 		}
 	}
 }
